@@ -483,8 +483,9 @@ def builtins():
     return BUILTINS
 
 
-ALIAS_VALUES = ['commit -v', 'status', 'ci', 'st -s', 'log', '!echo x']
+ALIAS_VALUES = ['commit -v', 'status', 'ci', 'st -s', 'log', '!echo x', '-p log', '--no-pager st']
 ALIAS_NAMES = ['ci', 'st', 'commit']
+USER_GLOBALS = [[], ['-c', 'x.y=z'], ['--no-pager']]
 
 
 def install(M):
@@ -502,29 +503,36 @@ def install(M):
     M.env['git::repository::Repository::config_get_str'] = config_get_str
 
 
-def git_alias_reference(cmd, rest, table):
-    """git's own expansion: built-ins are never aliased; loop => fatal.
-    -> ('run', argv) | ('fatal',)"""
+def git_alias_reference(P, argv, table):
+    """git's own treatment of argv (python strings): global options are consumed by handle_options,
+    built-ins are never aliased, alias values are split and may themselves start with global options,
+    a loop is fatal.  -> ('run', globals, [cmd, args..]) | ('fatal',) | ('shell', ...)"""
     seen = []
-    argv = [cmd] + rest
+    globs = []
+    cur = list(argv)
     while True:
-        c = argv[0]
-        if c in builtins():
-            return ('run', argv)
-        if c not in table:
-            return ('run', argv)     # external command or "not a git command" – same argv either way
+        consumed, term = git_reference(P, [list(x.encode()) for x in cur])
+        globs += [bytes(x).decode() for x in consumed]
+        if term[0] != 'cmd':
+            return ('other', globs, term[0])
+        c = bytes(term[1]).decode()
+        rest = [bytes(x).decode() for x in term[2]]
+        if c in builtins() or c not in table:
+            return ('run', globs, [c] + rest)
         if c in seen:
             return ('fatal',)
         seen.append(c)
         val = table[c]
         if val.startswith('!'):
-            return ('shell', argv)
+            return ('shell', globs, [c] + rest)
         toks = val.split()
         if not toks:
             return ('fatal',)
-        if toks[0] == c:
-            return ('fatal',)      # "recursive alias"
-        argv = toks + argv[1:]
+        cur = toks + rest
+        # git: "recursive alias" when the alias expands to itself as the command
+        c2, t2 = git_reference(P, [list(x.encode()) for x in toks])
+        if t2[0] == 'cmd' and bytes(t2[1]).decode() == c:
+            return ('fatal',)
 
 
 def ob_alias_resolve(h, shape):
@@ -540,26 +548,27 @@ def ob_alias_resolve(h, shape):
         picks.append([ALIAS_NAMES[ni], ALIAS_VALUES[vi]])
     P.state['aliases'] = table
     cmd = shape['cmd']
-    rest = ['-x']
-    h.inputs_struct = {'aliases': picks, 'argv': [cmd] + rest}
-    parsed = P.call_named(PARSE, [SliceRef(VecV([pystring(cmd)] + [pystring(x) for x in rest]), 0, 1 + len(rest))])
+    ug = USER_GLOBALS[h.choice(len(USER_GLOBALS))]
+    argv = list(ug) + [cmd, '-x']
+    h.inputs_struct = {'aliases': picks, 'argv': argv}
+    parsed = P.call_named(PARSE, [SliceRef(VecV([pystring(x) for x in argv]), 0, len(argv))])
     repo = Opaque('Repository', None)
     try:
         r = P.call_named(RESOLVE, [Ref(Cell(parsed)), Ref(Cell(repo))])
     except Panic as e:
         h.panic('A3-no-panic', e.msg)
         return
-    ref = git_alias_reference(cmd, rest, table)
+    ref = git_alias_reference(P, argv, table)
     if r.var == 'None':
-        passed = [cmd] + rest        # handle_git keeps the user's invocation
+        passed = list(argv)          # handle_git keeps the user's invocation
     else:
         vec = P.call_named(TOVEC, [Ref(Cell(r.f[0]))])
         passed = [bytes(concrete_bytes(s.buf.b)).decode() for s in vec.e]
     known = [('alias-shadows-builtin', z3.BoolVal(any(k in builtins() for k in table)))]
-    # what git finally runs when handed `passed` must be what it runs for the user's argv
-    final = git_alias_reference(passed[0], passed[1:], table) if passed else ('fatal',)
-    h.require(final == ref, 'A3-same-expansion', 'git would run %r for the user but %r through git-ai' % (ref, final), known)
-    h.sample = {'aliases': picks, 'argv': [cmd] + rest, 'passed': passed}
+    # what git finally does when handed `passed` must be what it does for the user's argv
+    final = git_alias_reference(P, passed, table) if passed else ('fatal',)
+    h.require(final == ref, 'A3-same-expansion', 'git would end up with %r for the user but %r through git-ai' % (ref, final), known)
+    h.sample = {'aliases': picks, 'argv': argv, 'passed': passed}
 
 
 OBLIGATIONS = {'argv': ob_argv, 'argv_batch': ob_argv_batch, 'alias_tokens': ob_alias_tokens, 'alias_resolve': ob_alias_resolve}
